@@ -16,9 +16,10 @@ THEOREMS = {
     'C11': [('ChessVerif.Props.C11', ['Chess.Props.C11_slider', 'Chess.Props.C11_leapers', 'Chess.Props.C11_lines', 'Chess.Props.C11_pawn'])],
     'C01': [('ChessVerif.Props.C01', ['Chess.Props.C01_leaper_geometry_partial', 'Chess.Props.C01_slider_geometry_partial', 'Chess.Props.C01_castling_paths_partial',
                                      'Chess.Props.C01_king_moves_partial', 'Chess.Props.C01_pins_partial'])],
-    'C02': [('ChessVerif.Props.C02', ['Chess.Props.C02_step', 'Chess.Props.C02_replay', 'Chess.Props.C02_castling_clock']),
+    'C02': [('ChessVerif.Props.C02', ['Chess.Props.C02_full', 'Chess.Props.C02_replay_legal', 'Chess.Props.C02_step', 'Chess.Props.C02_replay', 'Chess.Props.C02_castling_clock']),
             ('ChessVerif.Lemmas.OKDec', ['Chess.specHypothesesHold_sound'])],
-    'C03': [('ChessVerif.Props.C03', ['Chess.Props.C03_undo_do', 'Chess.Props.C03_undo_null', 'Chess.Props.C03_nested', 'Chess.Props.C03_observables']),
+    'C03': [('ChessVerif.Props.C03', ['Chess.Props.C03_full', 'Chess.Props.C03_undo_do', 'Chess.Props.C03_undo_null', 'Chess.Props.C03_nested', 'Chess.Props.C03_observables',
+                                     'Chess.Props.C03_key_after_legal']),
             ('ChessVerif.Lemmas.OKDec', ['Chess.hypothesesHold_sound'])],
     'C04': [('ChessVerif.Props.C04', ['Chess.Props.C04_key_inv', 'Chess.Props.C04_scratch_is_init', 'Chess.Props.C04_same_pos_same_key', 'Chess.Props.C04_pawn_key'])],
     'C05': [('ChessVerif.Props.C05', ['Chess.Props.C05_bestmove', 'Chess.Props.C05_bestmove_generated', 'Chess.Props.C05_pv_legal'])],
@@ -33,7 +34,7 @@ THEOREMS = {
     'C12': [('ChessVerif.Props.C12', ['Chess.Props.C12_index', 'Chess.Props.C12_normalize'])],
     'C13': [('ChessVerif.Props.C13', ['Chess.Props.C13_geometry', 'Chess.Props.C13_normSq_mirror', 'Chess.Props.C13_combine_neg', 'Chess.Props.C13_phase_symm'])],
     'C14': [('ChessVerif.Props.C14', ['Chess.Props.C14_cache_transparent', 'Chess.Props.C14_cap_partial'])],
-    'C15': [('ChessVerif.Props.C15', ['Chess.Props.C15_quiet', 'Chess.Props.C15_castling', 'Chess.Props.C15_capture_rules'])],
+    'C15': [('ChessVerif.Props.C15', ['Chess.Props.C15_capture_quiet_full', 'Chess.Props.C15_quiet', 'Chess.Props.C15_castling', 'Chess.Props.C15_capture_rules'])],
     'C17': [('ChessVerif.Props.C17', ['Chess.Props.C17_matcher_piece', 'Chess.Props.C17_matcher_pawn', 'Chess.Props.C17_castling'])],
     'C18': [('ChessVerif.Props.C18', ['Chess.Props.C18_tables', 'Chess.Props.C18_anchors', 'Chess.Props.C18_pieces', 'Chess.Props.C18_key_noep', 'Chess.Props.C18_key'])],
     'C16': [('ChessVerif.Props.C16', ['Chess.Props.C16_encoding', 'Chess.Props.C16_encoding_move', 'Chess.Props.C16_castle_code', 'Chess.Props.C16_moveinfo',
